@@ -17,6 +17,13 @@ type directedProg struct {
 	src   string // without the package clause
 	reset string // statements restoring the package state
 	fns   []directedFn
+	// functions that are not exported, for the debug-information clause
+	others []directedOther
+}
+
+type directedOther struct {
+	name, recv string
+	params     []string
 }
 
 type directedFn struct {
@@ -32,6 +39,9 @@ func (d directedProg) program(idx int) *program {
 	p.reset = fmt.Sprintf("package %s\n\nfunc ResetGlobals() {\n%s\n}\n", p.pkg, d.reset)
 	for _, df := range d.fns {
 		f := &fn{name: df.name, exported: true, rets: []ty{df.ret}}
+		if df.ret == tVoid {
+			f.rets = nil
+		}
 		for i, t := range df.params {
 			f.params = append(f.params, &vr{name: fmt.Sprintf("a%d", i), t: t})
 		}
@@ -50,6 +60,16 @@ func (d directedProg) program(idx int) *program {
 		for _, a := range args {
 			p.calls = append(p.calls, callSpec{Fn: df.name, Args: a})
 		}
+	}
+	for _, o := range d.others {
+		f := &fn{name: o.name, rets: []ty{tInt}}
+		if o.recv != "" {
+			f.recv = &structT{name: o.recv}
+		}
+		for _, n := range o.params {
+			f.params = append(f.params, &vr{name: n, t: tInt})
+		}
+		p.funcs = append(p.funcs, f)
 	}
 	p.locate()
 	return p
@@ -412,6 +432,50 @@ func F(a0 int) int {
 		r = a0
 	}
 	return r*10 + a0
+}
+`},
+	{name: "function-and-method-of-the-same-name", fns: intFn,
+		others: []directedOther{{name: "get", params: []string{"x"}}, {name: "get", recv: "S", params: []string{"y"}}}, src: `
+type S struct {
+	A int
+}
+
+func (s *S) get(y int) int {
+	if y > 1 {
+		return s.A
+	}
+	return s.A + y
+}
+
+func get(x int) int {
+	return x * 2
+}
+
+func F(a0 int) int {
+	s := &S{A: 3}
+	return s.get(a0) + get(a0)
+}
+`},
+	{name: "function-literal-with-two-parameters-receives-them-reversed", fns: intFn, src: `
+func F(a0 int) int {
+	sub := func(p int, q int) int {
+		return p*10 - q
+	}
+	return sub(a0, 3)
+}
+`},
+	{name: "function-literal-inside-init", fns: intFn, reset: "\tg = 3", src: `
+var g = 1
+
+func init() {
+	inc := func(x int) int {
+		return x + 1
+	}
+	g = inc(2)
+}
+
+func F(a0 int) int {
+	return g*10 + a0
 }
 `},
 	{name: "slice-of-constant-string", fns: intFn, src: `
